@@ -200,6 +200,7 @@ func plan(tier string, seed int64) []driver.Case {
 		add(fmt.Sprintf("standalone-combo/%d/%s/%s/[%s]/%s/%s%s", i, strings.Join(ins, ","), chainID(names), sc, mode, dr, cutID(cut)),
 			map[string]string{"kind": "standalone", "chain": strings.Join(names, ">"), "inserts": strings.Join(ins, ","), "script": sc, "mode": mode, "drive": dr, "cut": cut})
 	}
+	cases = append(cases, togglePlan()...)
 	return cases
 }
 
@@ -1310,8 +1311,11 @@ func runStandalone(c driver.Case) driver.Result {
 
 func runCase(c driver.Case) driver.Result {
 	rec.ResetHooks()
-	if c.Get("kind") == "standalone" {
+	switch c.Get("kind") {
+	case "standalone":
 		return runStandalone(c)
+	case "toggle":
+		return runToggle(c)
 	}
 	return runPipe(c)
 }
